@@ -60,6 +60,8 @@ type c07Env struct {
 	Granter bool   `json:"granter"`     // fee granter = wallet 1 (holds a real unlimited fee allowance for wallet 0)
 	Memo    bool   `json:"memo"`        // memo "x"
 	Timeout bool   `json:"timeout"`     // timeout height 5 (all blocks of a case are below it)
+	// TimeoutH (with Timeout): another timeout height than 5: "1" | "i63max" (2^63−1) | "2^63" | "2^63+1" | "u64max"
+	TimeoutH string `json:"timeout_h,omitempty"`
 	Fee     string `json:"fee"`         // eq | +1 | -1 | denom | extra (relative to the first top-level Ethereum msg) | cosmos (2e6 gas × base fee)
 	Gas     string `json:"gas"`         // eq | +1 | -1 | cosmos (2 000 000)
 }
@@ -88,6 +90,9 @@ func (s c07Shape) String() string {
 		if x.on {
 			f = append(f, x.n)
 		}
+	}
+	if e.TimeoutH != "" {
+		f = append(f, "timeout-height="+e.TimeoutH)
 	}
 	f = append(f, "fee="+e.Fee, "gas="+e.Gas)
 	return "[" + strings.Join(s.Msgs, ",") + "] {" + strings.Join(f, " ") + "}"
@@ -335,6 +340,21 @@ func c07Build(cw *c07World, s c07Shape, seq uint64) []byte {
 	}
 	if s.Env.Timeout {
 		body.TimeoutHeight = 5
+		switch s.Env.TimeoutH {
+		case "":
+		case "1":
+			body.TimeoutHeight = 1
+		case "i63max":
+			body.TimeoutHeight = 1<<63 - 1
+		case "2^63":
+			body.TimeoutHeight = 1 << 63
+		case "2^63+1":
+			body.TimeoutHeight = 1<<63 + 1
+		case "u64max":
+			body.TimeoutHeight = 1<<64 - 1
+		default:
+			panic("c07: timeout_h " + s.Env.TimeoutH)
+		}
 	}
 	// fee
 	ethGas, ethFee := uint64(0), new(big.Int)
@@ -1016,6 +1036,14 @@ func c07Enumerate(thorough bool) c07Space {
 		}
 	}
 	nC := len(sp.Shapes) - n0
+	// D: boundary values of the timeout height on the Ethereum envelope (the field is a uint64: values around 2^63 and 2^64)
+	for _, l := range [][]string{{"E"}, {"E2"}} {
+		for _, h := range []string{"1", "i63max", "2^63", "2^63+1", "u64max"} {
+			e := c07EthCanon
+			e.Timeout, e.TimeoutH = true, h
+			add(l, e)
+		}
+	}
 	aRule := fmt.Sprintf("the full product (%d envelopes)", nA/2)
 	if !thorough {
 		aRule = fmt.Sprintf("every envelope within two factor changes of the canonical Ethereum envelope (%d: base, all single and all pairwise deviations)", nA/2)
@@ -1026,7 +1054,7 @@ func c07Enumerate(thorough bool) c07Space {
 	}
 	sp.Rule = fmt.Sprintf("Each shape is hand-assembled as TxRaw/TxBody/AuthInfo protobuf and run on a fresh app through Simulate, CheckTx(New), [empty block], CheckTx(ReCheck) only if CheckTx accepted, FinalizeBlock+Commit; everything but the shape is valid (funded wallet 0, correct nonce/sequence, valid signature when one is present, real authz grant and fee allowance, proven vesting targets). "+
 		"Message atoms: E/E2=MsgEthereumTx carrying a legacy / dynamic-fee transfer, S=bank send, V1..V3=the three vesting-creation messages, G:t=MsgGrant of a GenericAuthorization for t∈{MsgEthereumTx,V1,V2,V3,MsgSend}, X<d>:m=m∈{E,V1,V2,V3,S} inside d nested MsgExec, XW<d>:m=the same with a bank send beside the next level at every level, and both forms around G:eth and G:V1 (lists of length ≤ 2 only); nesting depth d ≤ %d (single-message lists: d ≤ 5). "+
-		"A (%d shapes): [E] and [E2] × envelope factors ext{%s} × signature{0,1} × signer info{0,1} × fee payer{-,set} × fee granter{-,set} × memo{'','x'} × timeout height{0,5} × fee{%s} × gas limit{%s} relative to the embedded tx — %s. "+
+		"A (%d shapes): [E] and [E2] × envelope factors ext{%s} × signature{0,1} × signer info{0,1} × fee payer{-,set} × fee granter{-,set} × memo{'','x'} × timeout height{0,5} (and, on the canonical envelope, 1, 2^63−1, 2^63, 2^63+1, 2^64−1) × fee{%s} × gas limit{%s} relative to the embedded tx — %s. "+
 		"B (%d shapes): all lists of length 1 and 2 over the %d atoms and all lists of length 3 over %s, each under the canonical Cosmos envelope (signed, signer info, 2e6 gas) and, when E is listed, also under the canonical Ethereum envelope. "+
 		"C (%d shapes): [E,S],[S,E],[E,E] × every single-factor deviation of the Ethereum envelope; [E],[E,S],[S,E],[X1:E],[X2:V1],[G:eth],[G:V1],[S],[X1:S] × Cosmos envelope with each extension-option level / payer / granter / memo / timeout. "+
 		"Oracle: reference predicate over the decoded protobuf, lane events of the delivered tx, full store hash (minus fee market) against an empty-block twin for every tx the predicate refuses.",
